@@ -415,6 +415,17 @@ def r4_display_logic(ctx, rep):
         paths = prune_paths(py, cls) or []
         off = [(lbl, acc) for lbl, acc in paths if any("proc_internals" in seg and not seg.startswith("not ") for seg in lbl.split("/"))]
         val = bool(off) and all(all(acc.get(k) == "emptied" for k in internals) for _, acc in off)
+        # sibling agreement: whatever the other paths *filter* for this class is content of the procedure; with the internals
+        # switched off it must be emptied as well (a local namelist or common block is documented on its own page / panel)
+        on = [acc for lbl, acc in paths if (lbl, acc) not in off]
+        filtered_elsewhere = sorted({k for acc in on for k, v in acc.items() if v == "filtered"})
+        left = sorted(k for k in filtered_elsewhere if any(acc.get(k) != "emptied" for _, acc in off))
+        if off:
+            rep.ob(f"proc_internals off empties everything {cls} filters otherwise", not left,
+                   f"{filtered_elsewhere} are all emptied" if not left else
+                   f"{left} are filtered by display on the other path but left untouched when proc_internals is off: a namelist or "
+                   f"common block local to the procedure keeps its page / panel (with the documentation of the local variables it names)",
+                   py.nloc(py.resolve_method(cls, 'prune')[1]), nontrivial=bool(left))
         rep.ob(f"proc_internals branch applies to {cls}", val,
                "a procedure-like unit drops its internals when proc_internals is off" if val else
                f"prune() of {cls} (obj == 'proc') has no path on which proc_internals=off empties {list(internals)}: its "
